@@ -19,7 +19,7 @@
         (3 c)  the bus reads the next message of c   (4 c)  c reads its next message
         (5 c key later)                              the Deferred `key` of an exported method of c fires
 
-   -> (invs results done raised proxies dead net open)
+   -> (invs results done raised proxies dead net open codec)
      invs    = ((c sender? serial fid (pyval ...) caller) ...)      caller = () | (sender?)
      results = ((c sender? serial (0 pyval) | (1 exn)) ...)
      done    = ((c id compl) ...)   compl = (0 pyval?) | (1 name text (pyval ...)) | (2) | (3) | (4 idx) | (5)
@@ -27,10 +27,13 @@
      proxies = (n_1 ... n_k)        proxies handed out per client
      dead    = (c ...)
      net     = ((dir c type) ...)   what is still in flight (dir 0 up, 1 down)
-     open    = ((c key) ...)        Deferreds of exported methods not yet fired *)
+     open    = ((c key) ...)        Deferreds of exported methods not yet fired
+     codec   = 1 when every message the run put in flight, at every step, is encodable by the concrete
+               codec of Model/WireCodec.v (well-framed, parses back): the hypothesis of the byte-level
+               theorems (Props/C11.v), checked on every case *)
 From Tx Require Import Lib.Base Lib.Sexp.
 From Tx Require Import Model.PyVal Model.BusNames Model.ProxyCall Model.System.
-From Tx Require Model.Calls Model.BusRoute Model.Dispatch Model.Introspect Model.Router Model.OpsC10.
+From Tx Require Model.Calls Model.BusRoute Model.Dispatch Model.Introspect Model.Router Model.OpsC10 Model.WireCodec.
 Local Open Scope Z_scope.
 
 (* --- setup ----------------------------------------------------------------------- *)
@@ -226,7 +229,13 @@ Definition op (args : list sexp) : sexp :=
                              (fun c => match alist_get N.eqb c objs with Some ex => ex | None => [] end)
                              (fun _ => beh_of behs)
                              (fun _ => (placeholder_name, [])) in
-              observe k (run g (setup k names) (fun _ => s0) sched)
+              let chk := WireCodec.net_okb (WireCodec.wire_enc fuel) (WireCodec.wire_dec fuel) in
+              let fin := fold_left (fun acc a => let s' := step g (fst acc) a in (s', snd acc && chk (s_net s')))
+                                   sched (init (setup k names) (fun _ => s0), true) in
+              match observe k (fst fin) with
+              | SList l => SList (l ++ [sbool (snd fin)])
+              | x => x
+              end
           | _, _, _ => bad
           end
       | _, _, _, _, _, _ => bad
